@@ -1,6 +1,12 @@
 package main
 
 import (
+	"github.com/netflix/rend/handlers/memcached"
+	"github.com/netflix/rend/orcas"
+	"github.com/netflix/rend/protocol"
+	"github.com/netflix/rend/protocol/binprot"
+	"github.com/netflix/rend/protocol/textprot"
+	"github.com/netflix/rend/server"
 	"verif/harness/fakemc"
 
 	"bytes"
@@ -444,6 +450,64 @@ func init() {
 					Signature: "chunked-reset-leak", Replay: map[string]interface{}{"stack": cfg.String()}})
 			} else {
 				rep.Validated++
+			}
+		}
+		// a TCP listener: clients that RESET the connection (SO_LINGER 0) before their first byte —
+		// protocol detection then fails with a connection error, not with end-of-input — and clients
+		// that leave in order; every backend connection opened for them is closed
+		{
+			what := "TCP listener, L1/L2 over pass-through handlers: 5 clients reset the connection before their first byte (and 3 leave in order)"
+			crumb(what, nil)
+			l1, l2 := fakemc.New(), fakemc.New()
+			s1, s2 := sockPath("c15tcp-l1-"), sockPath("c15tcp-l2-")
+			must(l1.Listen(s1))
+			must(l2.Listen(s2))
+			// find a free port
+			port := 0
+			if ln, err := net.Listen("tcp", "127.0.0.1:0"); err == nil {
+				port = ln.Addr().(*net.TCPAddr).Port
+				ln.Close()
+			}
+			if port != 0 {
+				go server.ListenAndServe(server.TCPListener(port), []protocol.Components{binprot.Components, textprot.Components}, server.Default, orcas.L1L2, memcached.Regular(s1), memcached.Regular(s2))
+				addr := fmt.Sprintf("127.0.0.1:%d", port)
+				up := false
+				for i := 0; i < 200 && !up; i++ {
+					if c, err := net.Dial("tcp", addr); err == nil {
+						c.Close()
+						up = true
+					} else {
+						time.Sleep(10 * time.Millisecond)
+					}
+				}
+				if up {
+					time.Sleep(100 * time.Millisecond)
+					base1, base2 := l1.OpenConns(), l2.OpenConns()
+					for i := 0; i < 8; i++ {
+						c, err := net.Dial("tcp", addr)
+						if err != nil {
+							continue
+						}
+						time.Sleep(5 * time.Millisecond)
+						if i < 5 {
+							c.(*net.TCPConn).SetLinger(0)
+						}
+						c.Close()
+					}
+					rep.Evaluations++
+					distinct["tcp-reset-before-first-byte"] = true
+					rep.Distribution["tcp-resets"]++
+					deadline := time.Now().Add(3 * time.Second)
+					for time.Now().Before(deadline) && (l1.OpenConns() > base1 || l2.OpenConns() > base2) {
+						time.Sleep(10 * time.Millisecond)
+					}
+					if n1, n2 := l1.OpenConns(), l2.OpenConns(); n1 > base1 || n2 > base2 {
+						rep.Violations = append(rep.Violations, Violation{What: fmt.Sprintf("%s: backend connections still open afterwards: L1 %d (was %d), L2 %d (was %d)", what, n1, base1, n2, base2),
+							Signature: "tcp-reset-leak", Replay: map[string]interface{}{"clients_reset": 5, "clients_fin": 3}})
+					} else {
+						rep.Validated++
+					}
+				}
 			}
 		}
 		rep.Distinct = len(distinct)
